@@ -23,8 +23,8 @@ type Env struct {
 	Workers  int
 	Start    time.Time
 
-	mu     sync.Mutex
-	built  map[string]string
+	mu      sync.Mutex
+	built   map[string]string
 	modfile string
 }
 
